@@ -65,6 +65,16 @@ def build(backend, tier):
     for hi in ("j.nTrk() - 1", "j.nTrk() - 2", "j.tags().Count() - 1"):
         add("range-bounds:per-object", f"ds.Select(lambda e: {S}.Select(lambda j: Range(0, {hi}).Count()))")
         add("range-bounds:per-object-sum", f"ds.SelectMany(lambda e: {S}).Select(lambda j: Range(0, {hi}).Sum())")
+    # ---- bool constants (captured python flags) in and / or chains: Python evaluates every operand to the LEFT of the constant
+    # that settles the chain and none to its right
+    for name, (p, good) in list(ev_partials.items())[:8]:
+        for form, expr in (("and-false-right", f"({p} > 1) and False"), ("or-true-right", f"({p} > 1) or True"), ("and-true-right", f"({p} > 1) and True"),
+                           ("or-false-right", f"({p} > 1) or False"), ("false-and-left", f"False and ({p} > 1)"), ("true-or-left", f"True or ({p} > 1)"),
+                           ("true-and-left", f"True and ({p} > 1)"), ("false-or-left", f"False or ({p} > 1)"),
+                           ("middle-false", f"({S}.Count() >= 0) and ({p} > 1) and False and ({T}.First().pt() > 1)")):
+            add(f"bool-constant:{form}:{name}", f"ds.Select(lambda e: {expr})")
+        add(f"bool-constant-where:and-false:{name}", f"ds.Where(lambda e: ({p} > 1) and False).Select(lambda e: {S}.Count())")
+        add(f"bool-constant-where:or-true:{name}", f"ds.Where(lambda e: ({p} > 1) or True).Select(lambda e: {S}.Count())")
     # ---- chained comparisons are not supported (C09 demands a refusal); IF one is translated, it is as lazy as Python's:
     # a < b < c does not evaluate c once a < b is false
     for name, (p, good) in list(ev_partials.items())[:6]:
